@@ -315,10 +315,17 @@ func ruleIdentity(c *Ctx, rule string) {
 	if dp == nil || idx == nil {
 		return
 	}
+	// the membership test used while building the union of requested fields: a
+	// closure or private helper of doProcessIterations taking a field, returning bool
 	var has *ssa.Function
-	for _, a := range dp.AnonFuncs {
-		if len(a.Params) == 1 && typeStr(a.Params[0].Type()) == "z/core.Field" {
-			has = a
+	for _, a := range withHelpers(c.P, dp) {
+		if a == dp || a.Signature.Results().Len() != 1 || typeStr(a.Signature.Results().At(0).Type()) != "bool" {
+			continue
+		}
+		for _, p := range a.Params {
+			if typeStr(p.Type()) == "z/core.Field" {
+				has = a
+			}
 		}
 	}
 	if has == nil {
